@@ -21,6 +21,7 @@ pub static PROP: Prop = Prop {
         "only the four open choices the property enumerates are varied",
     ],
     fixed: Some(fixed),
+    scale: None,
 };
 
 fn check(t: &mut Tape, ctx: &mut Ctx) -> CheckResult {
